@@ -125,6 +125,27 @@ def _box(tier):
             for c in ("Revolve", "DiskRevolve", "PeriodicDiskRevolve"):
                 yield {"cls": c, "n": n, "s": a, "c8": [8, 8, 16, 16], "passes": 1}
                 yield {"cls": c, "n": n, "s": a, "c8": [16, 8, 0, 8], "passes": 1}
+    # valid tuples in unusual cost units (very large / very small / one-decimal step and transfer costs)
+    for n in (1, 2, 3, 12, 40):
+        for a in (1, 2):
+            for kw in ({"c8": [8 << 40, 8 << 40, 16 << 40, 16 << 40]}, {"c8": [8, 8, 16, 16], "den": 8 << 40},
+                       {"c8": [3 << 30, 1 << 30, 1 << 28, 5 << 30]}, {"c8": [3, 10, 9, 11], "den": 10}):
+                for c in ("Revolve", "DiskRevolve", "PeriodicDiskRevolve"):
+                    t = {"cls": c, "n": n, "s": a, "passes": 1}
+                    t.update(kw)
+                    yield t
+                for b in (0, 2):
+                    t = {"cls": "HRevolve", "n": n, "s": a, "d": b, "passes": 1}
+                    t.update(kw)
+                    yield t
+    # dense (n, units) grid for the classes whose planners have data-dependent internal checks
+    M = 48 if tier == "quick" else 100
+    for n in range(N + 1, M + 1):
+        for a in range(1, n):
+            yield {"cls": "Mixed", "n": n, "s": a, "storage": "RAM" if (n + a) % 2 else "DISK", "passes": 1}
+            yield {"cls": "Multistage", "n": n, "ram": a % 3, "disk": a - a % 3 if a - a % 3 + a % 3 > 0 else 1, "traj": "maximum" if n % 2 else "revolve", "passes": 1}
+            if a <= 12:
+                yield {"cls": "Revolve", "n": n, "s": a, "c8": [8, 8, 16, 16], "passes": 1}
     for p in range(-1, 5):
         for b in range(0, 4):
             for stg in STORAGES:
